@@ -609,6 +609,13 @@ func (p *Prog) variantsOf(c *Contract) []*Contract {
 // staticModHeapsLib resolves a modifies entry (`x.f`, `elems(x)`) of an assumed contract (library function or
 // interface method) to heap map names, using the parameter and receiver types written in the contract header.
 func (e *Engine) staticModHeapsLib(c *Contract, entry string) []string {
+	return e.staticModHeapsLibAt(c, entry, nil)
+}
+
+// staticModHeapsLibAt: recvT, when known, is the static type of the receiver AT THE CALL (an instance of a generic
+// library type such as *skipmap.StringMap[*nodeConnection], whose abstract fields mention its type parameters; the
+// type written in the contract header is the uninstantiated one).
+func (e *Engine) staticModHeapsLibAt(c *Contract, entry string, recvT types.Type) []string {
 	entry = strings.TrimSpace(entry)
 	if _, ok := isObjectEntry(entry); ok {
 		return nil // applied at the call site that knows the object (objparams.go)
@@ -618,6 +625,9 @@ func (e *Engine) staticModHeapsLib(c *Contract, entry string) []string {
 			if p.Name == name {
 				return e.P.tryResolveType(p.Type, c.Pkg, nil)
 			}
+		}
+		if name == c.RecvName && recvT != nil {
+			return recvT
 		}
 		if name == c.RecvName && strings.HasPrefix(c.Key, "(") {
 			if i := strings.Index(c.Key, ")."); i > 0 {
